@@ -29,21 +29,22 @@ type c19Req struct {
 }
 
 type c19Scen struct {
-	Router  string   `json:"router"`
-	Trace   bool     `json:"trace_in_concurrent_phase"`
-	Enc     bool     `json:"encoding"`
-	CORS    int      `json:"cors"` // 0 none, 1 computed methods, 2 configured methods
-	Options bool     `json:"options_filter"`
-	NC      int      `json:"container_filters"`
-	NS      int      `json:"service_filters"`
-	NR      int      `json:"route_filters"`
-	Entry   string   `json:"entry"`
-	Preempt int      `json:"preempt_permille"`
-	Specs   []c19Req `json:"request_specs"`
-	Order   []int    `json:"sequential_order"`
-	Clients [][]int  `json:"clients"`
-	Gone    [][]int  `json:"client_gone_at_write"` // per client and request: k>0 = the writer fails from write #k-1 on
-	entry   int
+	Router        string   `json:"router"`
+	Trace         bool     `json:"trace_in_concurrent_phase"`
+	RouterHistory bool     `json:"router_set_twice"` // the serving containers first get the other router, then the final one; the reference gets it once
+	Enc           bool     `json:"encoding"`
+	CORS          int      `json:"cors"` // 0 none, 1 computed methods, 2 configured methods
+	Options       bool     `json:"options_filter"`
+	NC            int      `json:"container_filters"`
+	NS            int      `json:"service_filters"`
+	NR            int      `json:"route_filters"`
+	Entry         string   `json:"entry"`
+	Preempt       int      `json:"preempt_permille"`
+	Specs         []c19Req `json:"request_specs"`
+	Order         []int    `json:"sequential_order"`
+	Clients       [][]int  `json:"clients"`
+	Gone          [][]int  `json:"client_gone_at_write"` // per client and request: k>0 = the writer fails from write #k-1 on
+	entry         int
 }
 
 func genC19(x *Ctx) *c19Scen {
@@ -51,6 +52,7 @@ func genC19(x *Ctx) *c19Scen {
 	sc := &c19Scen{}
 	sc.Router = []string{"curly", "jsr311"}[tp.G(2)]
 	sc.Trace = tp.Bool()
+	sc.RouterHistory = tp.Chance(300)
 	sc.Enc = tp.Bool()
 	sc.CORS = tp.G(3)
 	sc.Options = tp.Chance(300)
@@ -66,7 +68,7 @@ func genC19(x *Ctx) *c19Scen {
 	}
 	shapes := []struct{ m, p string }{
 		{"GET", "/u/%s"}, {"GET", "/u/%s/sub/k%s"}, {"POST", "/u/%s"}, {"GET", "/v/t%s/items/%s"}, {"PUT", "/u/%s"},
-		{"GET", "/nowhere/%s"}, {"OPTIONS", "/u/%s"}, {"OPTIONS", "/v/t%s/items/%s"}, {"DELETE", "/v/t%s/items/%s"},
+		{"GET", "/nowhere/%s"}, {"GET", "/u/doc/%s.json"}, {"GET", "/u/num/x%sy"}, {"OPTIONS", "/u/%s"}, {"OPTIONS", "/v/t%s/items/%s"}, {"DELETE", "/v/t%s/items/%s"},
 	}
 	tp.Repeat(2, maxSpecs, 650, func(i int) {
 		sh := shapes[tp.G(len(shapes))]
@@ -120,10 +122,22 @@ type c19Echo struct {
 	Ent    string `json:"ent" xml:"ent"`
 }
 
-func c19Build(sc *c19Scen) *restful.Container {
+func c19Build(sc *c19Scen) *restful.Container { return c19BuildH(sc, false) }
+
+// c19BuildH: with history the router is set twice; only the last setting is configuration.
+func c19BuildH(sc *c19Scen, history bool) *restful.Container {
 	c := restful.NewContainer()
+	if history && sc.RouterHistory {
+		if sc.Router == "jsr311" {
+			c.Router(restful.CurlyRouter{})
+		} else {
+			c.Router(restful.RouterJSR311{})
+		}
+	}
 	if sc.Router == "jsr311" {
 		c.Router(restful.RouterJSR311{})
+	} else if history && sc.RouterHistory {
+		c.Router(restful.CurlyRouter{})
 	}
 	c.EnableContentEncoding(sc.Enc)
 	if sc.CORS > 0 {
@@ -184,6 +198,9 @@ func c19Build(sc *c19Scen) *restful.Container {
 	mk(ws1, ws1.GET("/{id}"))
 	mk(ws1, ws1.GET("/{id}/sub/{k}"))
 	mk(ws1, ws1.POST("/{id}"))
+	// templates on which the two routers' parameter extraction differs
+	mk(ws1, ws1.GET("/doc/{name}.json"))
+	mk(ws1, ws1.GET("/num/{id:[0-9]+}"))
 	ws2 := new(restful.WebService).Path("/v/{tenant}").Produces("application/json")
 	mk(ws2, ws2.GET("/items/{id}"))
 	mk(ws2, ws2.DELETE("/items/{id}"))
@@ -270,7 +287,7 @@ func runC19(x *Ctx) {
 	}
 	// (S) all on one container, sequentially, in the tape-chosen order
 	restful.EnableTracing(sc.Trace)
-	cs := c19Build(sc)
+	cs := c19BuildH(sc, true)
 	for pos, sp := range sc.Order {
 		if got := sc.Specs[sp].serve(cs, sc.entry, nil, 100+pos); got != ref[sp] {
 			x.Violate("history-dependent", "sequential history %v, position %d: %s %s answered\n  %s\nalone on a fresh container (tracing flipped) it is answered\n  %s", sc.Order[:pos+1], pos, sc.Specs[sp].Method, sc.Specs[sp].Path, got, ref[sp])
@@ -278,7 +295,7 @@ func runC19(x *Ctx) {
 		}
 	}
 	// (P) all on one container, on concurrent client tasks
-	cp := c19Build(sc)
+	cp := c19BuildH(sc, true)
 	got := make([][]string, len(sc.Clients))
 	for ci, cl := range sc.Clients {
 		ci, cl := ci, cl
